@@ -734,6 +734,12 @@ def r02_22(run, model):
 
 
 def run(run, model):
+    # the linked program is emitted Go too: lambda lifting reads callee signatures in concatenation order, so a link order other than
+    # dependency-first leaves a closure-returning import ill-typed (shared with C14 R14.1), and a unit linked against an interface it was
+    # not built with calls functions at another arity / layout (shared with C15 R15.4)
+    from rules import c14 as _c14l, c15 as _c15l
+    run.try_rule(_c14l.r14_1, model)
+    run.try_rule(_c15l.r15_4, model)
     # liveness / effect walkers of the Go dead-code pass visit a sub-term whatever its shape (shared with C01 R01.14)
     from rules import c01 as _c01w
     run.try_rule(_c01w.r01_14, model, "R02.23", r"/go/dce\.rs$")
